@@ -31,7 +31,7 @@ const (
 	hardTimeout = 10 * time.Second
 )
 
-// softTimeout: a run normally takes ~20 ms. After this long the process is asked for its goroutine
+// softTimeout: a run normally takes 0.3-0.5 s (process start-up dominates). When the child has gone idle (see idleOrExpired) or, at the latest, after this long the process is asked for its goroutine
 // dump (SIGQUIT). If the dump shows the permanent deadlock of D8 the verdict is final (every goroutine
 // is blocked on a channel nobody serves); otherwise the run is repeated with the full deadline.
 func softTimeout() time.Duration {
@@ -237,7 +237,7 @@ func runOnce(src string, rsize int, mpm bool, p Plan, deadline time.Duration, pr
 }
 
 // idleOrExpired fires when the deadline passes or, earlier, when the child has been completely idle
-// (every thread sleeping, no CPU time consumed) for 300 ms after its first 300 ms: the moment to ask
+// (every thread sleeping, no CPU time consumed) for 400 ms after its first 600 ms: the moment to ask
 // for the goroutine dump. The dump, not the timing, decides (see runOnce): an idle process whose dump
 // is not the D8 deadlock is simply run again under the full deadline.
 func idleOrExpired(pid int, deadline time.Duration, done <-chan error) <-chan time.Time {
@@ -259,13 +259,13 @@ func idleOrExpired(pid int, deadline time.Duration, done <-chan error) <-chan ti
 			if !ok {
 				return // gone
 			}
-			if sleeping && cpu == last && time.Since(start) > 300*time.Millisecond {
+			if sleeping && cpu == last && time.Since(start) > 600*time.Millisecond {
 				idle++
 			} else {
 				idle = 0
 			}
 			last = cpu
-			if idle >= 3 {
+			if idle >= 4 {
 				out <- time.Now()
 				return
 			}
@@ -311,6 +311,9 @@ func RunBondgo(src string, rsize int, mpm bool, p Plan) RunResult {
 	r := runOnce(src, rsize, mpm, p, softTimeout(), true)
 	if r.Status != "probe-inconclusive" {
 		return r
+	}
+	if os.Getenv("VERIF_C12_DEBUG") != "" {
+		fmt.Printf("DEBUG probe-inconclusive mpm=%v plan=%+v\n%s\n", mpm, p, r.Dump)
 	}
 	r2 := runOnce(src, rsize, mpm, p, hardTimeout, false)
 	r2.Slow = true
